@@ -34,8 +34,9 @@ class RequestChannelRequester(RequestChannelCommon, Requester):
 
     def subscribe(self, subscriber: Subscriber):
         self.setup()
-        super().subscribe(subscriber)
+        # the request frame is queued first: a subscriber may call request(n) or cancel() from inside on_subscribe
         self._send_channel_request(self._payload)
+        super().subscribe(subscriber)
 
         if self._publisher is None:
             self.mark_completed_and_finish(sent=True)
